@@ -23,6 +23,11 @@ func init() {
 			{"save-complete", "Save and ToBytes run the same regeneration sequence incl. content types and relationships", ruleSaveSibling},
 			{"clone-alias", "a rendered document does not share its content-type lists with the template (mutability-aware alias analysis of cloneDocument)", ruleCloneAliasFor("ContentTypes", "Document")},
 			{"save-truncate", "the target file is created/truncated, never opened for in-place overwrite", ruleSaveTruncate},
+			{"keyed-insert", "content-type defaults (by extension) and overrides (by part name) are found-or-added by their key alone, so every stored part keeps exactly one content type", func(r *Run) {
+				ruleKeyedInsert(r, map[string]bool{"Defaults": true, "Overrides": true})
+			}},
+			{"rel-append-only", "relationship lists of an existing package are only appended to: the officeDocument relationship that locates the main part is never replaced or dropped", ruleRelAppendOnly},
+			{"fresh-dep/relid", "ids given to relationships added to an existing list depend on the ids already there (a constant id can take over the officeDocument relationship's id)", ruleFreshRelID},
 		},
 		Assumptions: append([]string{"encoding/xml escapes text and attribute values and replaces invalid characters"}, commonAssumptions...),
 	}
@@ -37,6 +42,8 @@ func init() {
 			{"clone-alias", "a rendered document does not share its relationship lists with the template (mutability-aware alias analysis of cloneDocument)", ruleCloneAliasFor("Relationships", "Document")},
 			{"rel-append-only", "relationship lists of an existing document are only appended to (shape of every store)", ruleRelAppendOnly},
 			{"alloc-scans-all", "the id allocator's scanning loop has no early exit", ruleAllocScansAll},
+			{"part-pass/rel-keep", "every relationship and every part of an opened package is retained (what the body refers to stays resolvable)", rulePartPass},
+			{"rel-serialise-all", "the relationship parts written on save contain every relationship of the in-memory lists", ruleRelSerialiseAll},
 		},
 		Assumptions: commonAssumptions,
 	}
@@ -51,6 +58,9 @@ func init() {
 			{"chardata-verbatim", "character data is stored as read (no transformation in the value's slice)", ruleCharDataVerbatim},
 			{"marshal-guard", "custom marshalers skip a field only when the field itself is absent (guard predicates cover every field)", ruleMarshalGuard},
 			{"marshal-pure", "serialising does not modify the model", ruleMarshalPure},
+			{"marshal-attr-unique", "hand-written marshallers add no attribute that the encoded struct's tags emit as well", ruleMarshalAttrUnique},
+			{"reader-input-only", "whether a parsed element is kept depends on the element, not on other state of the document under construction (dependence slice of the branch conditions inside the reader's element cases)", ruleReaderInputOnly},
+			{"attr-presence", "where the reader keeps an element only for a non-empty attribute, no library code builds that element with the attribute empty (regions of attr != \"\" tests vs composite literals)", ruleAttrPresence},
 			{"part-prov", "parts (pictures included) are stored exactly as read from the archive on Open", rulePartProv},
 		},
 		Assumptions: append([]string{"encoding/xml marshals exactly the tagged fields", "reader functions are those statically reachable from (*Document).parseDocument"}, commonAssumptions...),
@@ -68,6 +78,8 @@ func init() {
 			{"skip-balanced", "the element skipper balances start and end tags (depth counter or recursion)", ruleSkipBalanced},
 			{"part-prov", "parts are stored exactly as read from the archive on Open (no limiting/transforming reader)", rulePartProv},
 			{"counter-numeric", "the restored image counter is a numeric maximum, not a lexicographic one", ruleCounterNumeric},
+			{"rel-serialise-all", "the relationship parts written on save contain every relationship of the in-memory lists (collects-all analysis of the marshalled slice)", ruleRelSerialiseAll},
+			{"reader-input-only", "whether parsed content is kept depends on the element read, not on other state of the document under construction", ruleReaderInputOnly},
 		},
 		Assumptions: commonAssumptions,
 	}
@@ -80,6 +92,7 @@ func init() {
 			{"save-sibling", "sibling agreement of the two save entry points", ruleSaveSibling},
 			{"save-verbatim", "each part is written with exactly the bytes of the part map", ruleSaveVerbatim},
 			{"save-truncate", "the target file is created/truncated, never opened for in-place overwrite", ruleSaveTruncate},
+			{"marshal-pure", "serialising does not modify the model: Save followed by ToBytes (or the reverse) sees the same document", ruleMarshalPure},
 		},
 		Assumptions: commonAssumptions,
 	}
@@ -95,6 +108,8 @@ func init() {
 			{"typed-nil", "readers whose result becomes an interface value never return (nil, nil)", ruleTypedNil},
 			{"untrusted-size", "no allocation on the Open path is sized from archive directory fields", ruleUntrustedSize},
 			{"iter-progress", "iterator loops are left when the advancing call fails without progress", ruleIterProgress},
+			{"grid-bound", "index and slice bounds on t.Grid.Cols follow from the dominating comparisons (difference-bound proof per use)", ruleGridBound},
+			{"marshal-attr-unique", "hand-written marshallers add no attribute that the encoded struct's tags emit as well (a re-saved main part stays well-formed)", ruleMarshalAttrUnique},
 		},
 		Assumptions: append([]string{"Decoder.Token returns an error at end of input and consumes input on every successful call"}, commonAssumptions...),
 	}
@@ -133,6 +148,7 @@ func init() {
 			{"copy-cover/alias", "CopyTable is complete and alias-free", ruleCopyTable},
 			{"loop-fresh", "table elements inserted in a loop are constructed in that loop", ruleLoopFresh},
 			{"prefix-append", "no append of new elements to a prefix of a slice whose tail is still needed", rulePrefixAppend},
+			{"grid-bound", "index and slice bounds on t.Grid.Cols follow from the dominating comparisons (difference-bound proof per use)", ruleGridBound},
 		},
 		Assumptions: commonAssumptions,
 	}
@@ -164,6 +180,7 @@ func init() {
 			{"ref-flow", "reference id = relationship id", ruleRefFlowHF},
 			{"clone-alias", "rendered documents do not share header/footer reference objects with the template", ruleCloneAliasFor("SectionProperties", "HeaderFooterReference")},
 			{"alloc-scans-all", "the relationship id allocator's scanning loop has no early exit", ruleAllocScansAll},
+			{"rel-serialise-all", "every relationship of the in-memory list (the newest header/footer relationship included) is written to the relationship part on save", ruleRelSerialiseAll},
 		},
 		Assumptions: commonAssumptions,
 	}
@@ -177,6 +194,7 @@ func init() {
 			{"err-atomic", "validate before write", ruleErrAtomicPage},
 			{"round-nearest", "mm→twips on the write path rounds to nearest (no truncating conversion)", ruleRoundNearest},
 			{"xml-object-total", "pgSz/pgMar/docGrid are rebuilt (or fully reassigned) by every SetPageSettings", ruleXMLObjectTotal},
+			{"schema-read/attr (section)", "the reader fills every attribute of pgSz, pgMar and docGrid from the attribute of the same name (same values after save and reopen)", filtered(ruleSchema, "PageSizeXML.", "PageMargin.", "DocGrid.", "SectionProperties.PageSize", "SectionProperties.PageMargins", "SectionProperties.DocGrid")},
 		},
 		Assumptions: commonAssumptions,
 	}
@@ -189,6 +207,7 @@ func init() {
 			{"part-dep", "regenerated parts depend on registry / replaced part", rulePartDep},
 			{"must-update", "registrations on every path", ruleMustUpdate},
 			{"part-from-registry", "regenerated styles/numbering parts contain every registry entry (unfiltered range loop)", rulePartFromRegistry("stylesXML", "Numbering")},
+			{"clone-cover (registries)", "the per-document note and numbering registries are copied field by field when a document is derived from another (a flag or counter left behind desynchronises ids and parts)", filtered(ruleCloneDocument, "FootnoteManager", "NumberingManager")},
 		},
 		Assumptions: append([]string{"unbounded integer parts of a style-id pattern are expanded over heading/TOC levels 1..9"}, commonAssumptions...),
 	}
@@ -218,6 +237,7 @@ func init() {
 			{"toc-config-flow", "functions given a TOC configuration collect headings with that configuration's level on every path", ruleTOCConfigFlow},
 			{"counter-monotonic", "note and numbering id counters only ever increase", ruleCounterMonotonic("FootnoteManager", "NumberingManager")},
 			{"item-config-flow", "each list item's numbering comes from that item's own configuration on every path", ruleItemConfigFlow},
+			{"clone-cover (registries)", "the per-document note and numbering registries are copied field by field when a document is derived from another", filtered(ruleCloneDocument, "FootnoteManager", "NumberingManager")},
 		},
 		Assumptions: commonAssumptions,
 	}
@@ -286,6 +306,7 @@ func init() {
 			{"export-pure", "exporting never writes into the document (mutation summaries)", ruleExportPure},
 			{"pool-escape", "nothing taken from a package-level sync.Pool is returned to callers", rulePoolEscape(pkgMd)},
 			{"cross-call-state", "no writer field carries content from one element to the next except the frozen, reasoned ones", ruleCrossCallState("MarkdownWriter", "(*MarkdownWriter).Write")},
+			{"marshal-pure", "saving a document does not modify it: what is exported after a save is what was built", ruleMarshalPure},
 		},
 		Assumptions: commonAssumptions,
 	}
